@@ -275,6 +275,19 @@ def rule_value_flow(prog, res):
                     and sig.args[0].args[0].args[0] == mod + "::to_sig" and parsed(sig.args[0].args[0].args[1][0], 5)
                 okd = oks and okg
         res.ob("Q-flow", "%s decode | each entry = (parsed %d-bit satellite id, to_sig(parsed 5-bit id), decoded bias)" % (num, idbits), okd, d, fd.loc, sample=d)
+        if len(pushes) == 1:
+            import looprules
+            pb_ = [b for b, t in fd.calls() if (callee_of(t) or "").endswith("DataVec::<T, N>::push")][0]
+
+            def _unknown_signal(x, s_):
+                # the only legitimate skip: to_sig(id) is None
+                for g in da.edge_guard(x, s_):
+                    tt = g[0]
+                    if tt.op == "discr" and tt.args[0].op == "call" and tt.args[0].args[0] == mod + "::to_sig" and ((g[1] == "eq" and g[2] == 0) or (g[1] == "ne" and 1 in g[2])):
+                        return True
+                return False
+            okc_, dc_ = looprules.action_complete(fd, da, pb_, _unknown_signal)
+            res.ob("Q-flow", "%s decode | every entry read with a recognised signal id is pushed (nothing else skips an entry)" % num, okc_, dc_, fd.loc)
         # ---- encode: signal id and bias come from the element currently written
         ea = FA(fe, prog)
         puts = [(b, ea.call_args(b), t) for b, t in fe.calls() if callee_of(t) == PUT]
@@ -326,6 +339,46 @@ def rule_value_flow(prog, res):
                                 okb = True
                         st.extend(y for y in x.args if isinstance(y, T))
         res.ob("Q-flow", "%s encode | the bias written is quantised from the same entry's bias_m" % num, okb, "", fe.loc)
+        # completeness: every entry the group count counted is written - in the write loop nothing but "to_id is None" can skip an entry
+        b_sig = [b for b, a, t in puts if a[1].op == "field" and a[1].args[0].op == "downcast" and a[1].args[0].args[0].op == "call"
+                 and a[1].args[0].args[0].args[0] == mod + "::to_id" and is_const(a[2]) and const_val(a[2]) == 5]
+        b_bias = [b for b, a, t in puts if (libmodel.carrier_of(t.get("rargs") or t.get("cargs")) or [None])[0] == "I16"]
+        okall = False
+        dall = "signal / bias writes not found"
+        if len(b_sig) == 1 and len(b_bias) == 1:
+            loops = fe.loops()
+            inner = None
+            for h_, body in loops.items():
+                if b_sig[0] in body and (inner is None or len(body) < len(loops[inner])):
+                    inner = h_
+            if inner is not None:
+                body = loops[inner]
+                latches = [s_ for (s_, h_) in fe.back_edges() if h_ == inner]
+                tid = ea.call_args(b_sig[0])[1].args[0].args[0]            # the to_id(..) call term
+                X = [x for x in sorted(body) if fe.term(x)["k"] == "switch"
+                     and ea.op_term(fe.term(x)["discr"], (x, len(fe.blocks[x]["stmts"]))) is mk("discr", tid)]
+                if len(X) == 1:
+                    x = X[0]
+                    before = all(fe.dominates(x, l_) for l_ in latches)
+                    some = [s_ for s_ in fe.succ(x) if any(g[0] is mk("discr", tid) and g[1] == "eq" and g[2] == 1 for g in ea.edge_guard(x, s_))]
+                    after = False
+                    if len(some) == 1:
+                        seen, st = set(), [some[0]]
+                        after = True
+                        while st:
+                            y = st.pop()
+                            if y in seen or y == b_bias[0] or y not in body:
+                                continue
+                            seen.add(y)
+                            if y in latches or y == inner:
+                                after = False
+                                break
+                            st.extend(fe.succ(y))
+                    okall = before and after
+                    dall = "" if okall else ("an entry can be skipped %s the to_id test without being written" % ("before" if not before else "after"))
+                else:
+                    dall = "no single test of to_id(..) in the write loop"
+        res.ob("Q-flow", "%s encode | in the write loop only an unrecognised signal skips an entry; every other entry reaches both writes" % num, okall, dall, fe.loc)
 
 
 def rule_tables(prog, res):
@@ -563,6 +616,39 @@ def rule_1230(prog, res):
             if not ok_:
                 break
     res.ob("Q-1230", "1230 | decoding pushes at most 4 entries into the 4-entry list", okc, "", fd.loc)
+    # completeness: for every index whose mask bit is set an entry is pushed - only a clear mask bit skips an index
+    import looprules
+    pbs = [b for b in sorted(fd.reachable()) if fd.term(b)["k"] == "call" and (callee_of(fd.term(b)) or "").endswith("DataVec::<T, N>::push")]
+
+    def _bit_clear(x, s_):
+        for g in da.edge_guard(x, s_):
+            fc = fact_of_guard(g)
+            tt = fc[1] if len(fc) >= 2 and hasattr(fc[1], "op") else None
+            if tt is not None and tt.op == "bin" and tt.args[0] == "BitAnd" and len(fc) == 3 and is_const(fc[2]) and const_val(fc[2]) == 0 and fc[0] == "Eq":
+                return True
+            # switch on the index value (match i { 0 => .., 1 => .. }) selects which signal is rebuilt: not a skip
+        return False
+    okp, dp = True, ""
+    if pbs:
+        # several push sites (one per index arm) or one: every completed iteration with the bit set passes one of them
+        h_ = looprules.innermost_loop(fd, pbs[0])
+        if h_ is not None:
+            body_ = fd.loops()[h_]
+            latches_ = {s_ for (s_, hh) in fd.back_edges() if hh == h_}
+            seen_, st_ = set(), [h_]
+            while st_ and okp:
+                y = st_.pop()
+                if y in seen_ or y in pbs or y not in body_:
+                    continue
+                seen_.add(y)
+                for z in fd.succ(y):
+                    if _bit_clear(y, z):
+                        continue
+                    if z == h_ and y in latches_:
+                        okp, dp = False, "an index with its mask bit set can be skipped (back edge from block %d)" % y
+                        break
+                    st_.append(z)
+    res.ob("Q-1230", "1230 | every index whose mask bit is set yields an entry (only a clear bit skips an index)", okp, dp, fd.loc)
     errs = set()
     for b in sorted(fe.reachable()):
         for i, s in enumerate(fe.blocks[b]["stmts"]):
